@@ -10,7 +10,7 @@ use serde_json::{json, Value};
 use sourcemap::{decode_slice, DecodedMap, RewriteOptions, SourceMap};
 use std::collections::{BTreeMap, BTreeSet};
 
-const SRC_POOL: [&str; 7] = ["dir/a.js", "dir/b.js", "/abs/c.js", "d.js", "dirx/e.js", "é→/dir/f.js", "/abs/dir/g.js"];
+const SRC_POOL: [&str; 8] = ["dir/a.js", "dir/b.js", "/abs/c.js", "d.js", "dirx/e.js", "é→/dir/f.js", "/abs/dir/g.js", ""];
 const PREFIX_SETS: [&[&str]; 7] = [&[], &["dir"], &["dir/"], &["/abs", "dir"], &["nomatch"], &["d"], &["é→", "é"]];
 const ROOTS: [Option<&str>; 4] = [None, Some("dir"), Some("r/"), Some("/")];
 
@@ -265,15 +265,34 @@ fn run_a(c: &ACase) -> (Option<Viol>, bool) {
     (v.map(|(s, w)| Viol::new(format!("C09/{s}"), w, json!({"kind": "regular", "case": serde_json::to_value(c).unwrap()}))), ran)
 }
 
+fn run_many(n: usize, kind: usize, ob: u64) -> Option<(String, String)> {
+    let opts = Opts { with_names: ob & 1 == 1, with_contents: ob & 2 == 2, prefixes: 0 };
+    let mut visits: Vec<usize> = (0..n).collect();
+    visits.extend([0, 1, n / 2, n - 1]);
+    if kind < 2 {
+        let m = RMap {
+            file: Some("out.js".into()),
+            sources: (0..n).map(|i| format!("dir/s{i}.js")).collect(),
+            names: (0..n).map(|i| format!("n{i}")).collect(),
+            contents: (0..n).map(|i| if i % 3 == 1 { None } else { Some(format!("c{i}")) }).collect(),
+            tokens: visits.iter().enumerate().map(|(k, &s)| RTok::new((k / 10) as u32, (k % 10) as u32 * 2, Some((s as u32, k as u32, 1, Some(s as u32))))).collect(),
+            ..Default::default()
+        };
+        check_model(&m, [0usize, 2][kind], &opts).0
+    } else {
+        check_hermes(&HCase { dup: false, ns: n, fm_mask: (1u64 << n) - 1, tok_srcs: visits, opts })
+    }
+}
+
 pub fn run(run: &mut Run) -> Finish {
     let tier = run.ctx.tier;
     let maxs = tier.pick(3usize, 4);
     let maxt = tier.pick(3usize, 4);
-    let nlists = n_seq_upto(7, maxs);
+    let nlists = n_seq_upto(SRC_POOL.len() as _, maxs);
     // slice A: structure
-    run.par_slice("A: every source list of length <= 3/4 over a 7-name pool (one with multi-byte characters, one that two prefixes of a set could strip in turn) (duplicates, unreferenced entries) x every assignment of <= 3/4 tokens to {no source} + sources (every first-use order) x every contents mask x names on/off x contents on/off, raw constructor and decoded", 1, nlists, |idx, l| {
+    run.par_slice("A: every source list of length <= 3/4 over an 8-name pool (one with multi-byte characters, the empty name, one that two prefixes of a set could strip in turn) (duplicates, unreferenced entries) x every assignment of <= 3/4 tokens to {no source} + sources (every first-use order) x every contents mask x names on/off x contents on/off, raw constructor and decoded", 1, nlists, |idx, l| {
         let k = idx & ((1 << 40) - 1);
-        let srcs = seq_upto_unrank(7, maxs, k);
+        let srcs = seq_upto_unrank(SRC_POOL.len() as _, maxs, k);
         let ns = srcs.len();
         let mut sub = 0u64;
         for nt in 0..=maxt {
@@ -305,7 +324,7 @@ pub fn run(run: &mut Run) -> Finish {
     run.par_slice("B: every source list x 4 roots x 7 prefix sets x {sources used in order, in reverse order, first only} x names/contents on/off, contents on every source", 2, nlists * 4 * 7, |idx, l| {
         let k = idx & ((1 << 40) - 1);
         let d = mixed_radix(k, &[7, 4, nlists]);
-        let srcs = seq_upto_unrank(7, maxs, d[2]);
+        let srcs = seq_upto_unrank(SRC_POOL.len() as _, maxs, d[2]);
         let ns = srcs.len();
         let orders: Vec<Vec<usize>> = vec![(1..=ns).collect(), (1..=ns).rev().collect(), (1..=ns.min(1)).collect()];
         let mut sub = 0;
@@ -358,6 +377,16 @@ pub fn run(run: &mut Run) -> Finish {
             l.sample(idx, json!({"slice": "H", "document": String::from_utf8_lossy(&hermes_doc(c))}));
         }
     });
+    // slice M: many sources (anything a builder does differently for long source lists is crossed):
+    // n distinct sources used in order, then the first, second, middle and last one again
+    let mcases: Vec<(usize, usize, u64)> = [15usize, 16, 17, 18, 33, 40].iter().flat_map(|&n| (0..3usize).flat_map(move |kind| (0..4u64).map(move |ob| (n, kind, ob)))).collect();
+    run.par_slice("M: maps with 15/16/17/18/33/40 distinct sources and names, every source used once in order and four of them again; regular (raw constructor, decoded) and Hermes with one function map per source; names/contents on/off", 4, mcases.len() as u64, |idx, l| {
+        let (n, kind, ob) = mcases[(idx & 0xffff_ffff) as usize];
+        if let Some((sig, what)) = run_many(n, kind, ob) {
+            l.violation(idx, Viol::new(format!("C09/{sig}/many-sources"), what, json!({"kind": "many", "n": n, "how": kind, "ob": ob})));
+        }
+        l.case(true, h64(&("many", n, kind, ob)));
+    });
     Finish {
         level: "exploration",
         rule: "E1: every map of slices A (source lists with duplicates and unreferenced entries x token-to-source assignments in every first-use order x contents masks x names/contents options), B (x roots x six prefix sets incl. several prefixes, trailing '/', a non-component prefix) and H (Hermes: sources x function-map/null x token sequences x options), built by the raw constructor and by decoding; tokens have pairwise distinct generated positions so that old and new tokens correspond exactly. Oracle, from the statement: same positions; source name = old resolved name minus the documented prefix; same original position, range flag, name (none if names dropped); new sources/names all referenced, no two new sources standing for one old name, no new source standing for two; contents present iff some referenced old source of that name had them and equal to one of them, none if not kept; file and debug id equal; Hermes: get_scope_for_token equal for every token before, after, and after saving the rewritten map. Distinct by construction; non-trivial = at least one token; class = shape of sources/tokens/options.".into(),
@@ -373,6 +402,10 @@ pub fn recheck(case: &Value) -> Vec<Viol> {
             let Ok(c) = serde_json::from_value::<HCase>(case["case"].clone()) else { return vec![] };
             check_hermes(&c).map(|(s, w)| Viol::new(format!("C09/{}", dup_sig(&c, s)), w, case.clone())).into_iter().collect()
         }
+        Some("many") => run_many(case["n"].as_u64().unwrap_or(16) as usize, case["how"].as_u64().unwrap_or(0) as usize, case["ob"].as_u64().unwrap_or(0))
+            .map(|(s, w)| Viol::new(format!("C09/{s}/many-sources"), w, case.clone()))
+            .into_iter()
+            .collect(),
         _ => vec![],
     }
 }
